@@ -285,26 +285,26 @@ def gen_header():
     b = src("src/enc/brotli_bit_stream.rs")
     # --- SanitizeParams
     body = body_after_signature(fn_body(e, "SanitizeParams", "encode.rs"))
-    m = re.search(r"params\.quality\s*=\s*min\(\s*" + LIT + r"\s*,\s*max\(\s*" + LIT + r"\s*,\s*params\.quality\s*\)\s*\)", body)
+    m = re.search(r"\w+\.quality\s*=\s*min\(\s*" + LIT + r"\s*,\s*max\(\s*" + LIT + r"\s*,\s*\w+\.quality\s*\)\s*\)", body)
     if not m:
         raise GenError("SanitizeParams: quality clamp `min(K, max(K, params.quality))` not found")
     out.append("Definition sanitize_qmax : Z := %d." % parse_num(m.group(1), "SanitizeParams qmax"))
     out.append("Definition sanitize_qmin : Z := %d." % parse_num(m.group(2), "SanitizeParams qmin"))
-    cmps = re.findall(r"params\.lgwin\s*([<>]=?)\s*" + LIT, body)
+    cmps = re.findall(r"\w+\.lgwin\s*([<>]=?)\s*" + LIT, body)
     if [c[0] for c in cmps] != ["<", ">", ">"]:
         raise GenError("SanitizeParams: expected comparisons lgwin < K, lgwin > K, lgwin > K, found %r" % (cmps,))
     out.append("Definition sanitize_lgwin_cmp : list Z := %s." % coq_zlist([parse_num(c[1], "SanitizeParams cmp") for c in cmps]))
-    asg = nums_in(body, r"params\.lgwin\s*=\s*" + LIT + r"\s*;", "SanitizeParams lgwin assignments", 3)
+    asg = nums_in(body, r"\w+\.lgwin\s*=\s*" + LIT + r"\s*;", "SanitizeParams lgwin assignments", 3)
     out.append("Definition sanitize_lgwin_set : list Z := %s." % coq_zlist(asg))
-    if not re.search(r"if\s+params\.catable\s*\{\s*params\.appendable\s*=\s*true\s*;\s*\}", body):
+    if not re.search(r"if\s+\w+\.catable\s*\{\s*\w+\.appendable\s*=\s*true\s*;\s*\}", body):
         raise GenError("SanitizeParams: `if params.catable { params.appendable = true; }` not found")
     # --- ensure_initialized: quality == 0 || quality == 1 -> lgwin = max(lgwin, 18)
     body = body_after_signature(fn_body(e, "ensure_initialized", "encode.rs"))
-    m = re.search(r"if\s+self\.params\.quality\s*==\s*" + LIT + r"\s*\|\|\s*self\.params\.quality\s*==\s*" + LIT + r"\s*\{\s*lgwin\s*=\s*max\(\s*lgwin\s*,\s*" + LIT + r"\s*\)", body)
+    m = re.search(r"if\s+self\.params\.quality\s*==\s*" + LIT + r"\s*\|\|\s*self\.params\.quality\s*==\s*" + LIT + r"\s*\{\s*(\w+)\s*=\s*max\(\s*\3\s*,\s*" + LIT + r"\s*\)", body)
     if not m:
         raise GenError("ensure_initialized: `if quality == K || quality == K { lgwin = max(lgwin, K)` not found")
     out.append("Definition fast_qualities : list Z := %s." % coq_zlist([parse_num(m.group(1), "ei"), parse_num(m.group(2), "ei")]))
-    out.append("Definition fast_min_lgwin : Z := %d." % parse_num(m.group(3), "ei"))
+    out.append("Definition fast_min_lgwin : Z := %d." % parse_num(m.group(4), "ei"))
     # --- EncodeWindowBits: every literal of the body, in order
     body = body_after_signature(fn_body(e, "EncodeWindowBits", "encode.rs"))
     lits = nums_in(body, WLIT, "EncodeWindowBits literals", 19)
@@ -325,7 +325,7 @@ def gen_header():
     out.append("Definition fast_path_requires_not_magic : bool := %s." % ("true" if "magic_number" in flags else "false"))
     # --- update_size_hint
     body = body_after_signature(fn_body(e, "update_size_hint", "encode.rs"))
-    sh = nums_in(body, r"let\s+limit\s*:\s*u32\s*=\s*1u32\s*<<\s*" + LIT, "update_size_hint limit", 1)
+    sh = nums_in(body, r"let\s+\w+\s*:\s*u32\s*=\s*1u32\s*<<\s*" + LIT, "update_size_hint limit", 1)
     out.append("Definition size_hint_limit_log : N := %d." % sh[0])
     # --- BrotliWriteMetadataMetaBlock
     body = body_after_signature(fn_body(b, "BrotliWriteMetadataMetaBlock", "brotli_bit_stream.rs"))
@@ -334,7 +334,7 @@ def gen_header():
         raise GenError("BrotliWriteMetadataMetaBlock: expected 4 literal BrotliWriteBits calls, found %d" % len(pairs))
     out.append("Definition meta_hdr_writes : list (N * N) := [%s]." % "; ".join(
         "(%d%%N, %d%%N)" % (parse_num(a, "meta"), parse_num(v, "meta")) for a, v in pairs))
-    m = re.search(r"BrotliWriteBits\(\s*" + LIT + r"\s*,\s*" + LIT + r"\s*\+\s*size_hint_count\s+as\s+u64", body)
+    m = re.search(r"BrotliWriteBits\(\s*" + LIT + r"\s*,\s*" + LIT + r"\s*\+\s*\w+\s+as\s+u64", body)
     if not m:
         raise GenError("BrotliWriteMetadataMetaBlock: length write `BrotliWriteBits(K, K + size_hint_count as u64` not found")
     out.append("Definition meta_len_nbits : N := %d." % parse_num(m.group(1), "meta len"))
@@ -342,7 +342,7 @@ def gen_header():
     trip = re.findall(r"\[\s*" + LIT + r"\s*,\s*" + LIT + r"\s*,\s*" + LIT + r"\s*\]", body)
     if len(trip) != 3:
         raise GenError("BrotliWriteMetadataMetaBlock: expected 3 magic byte triples, found %d" % len(trip))
-    if not re.search(r"if\s+params\.catable\s*&&\s*!params\.use_dictionary\s*\{[^}]*\}\s*else\s+if\s+params\.appendable\s*\{", body):
+    if not re.search(r"if\s+\w+\.catable\s*&&\s*!\w+\.use_dictionary\s*\{[^}]*\}\s*else\s+if\s+\w+\.appendable\s*\{", body):
         raise GenError("BrotliWriteMetadataMetaBlock: mode selection `if catable && !use_dictionary {..} else if appendable {..}` not found")
     for name, t in zip(("magic_catable", "magic_appendable", "magic_plain"), trip):
         out.append("Definition %s : list N := %s." % (name, coq_list([parse_num(x, "magic") for x in t])))
@@ -352,8 +352,8 @@ def gen_header():
     # --- encode_base_128
     out.append("Definition MAX_SIZE_ENCODING : N := %d." % const(b, "MAX_SIZE_ENCODING", "brotli_bit_stream.rs"))
     body = body_after_signature(fn_body(b, "encode_base_128", "brotli_bit_stream.rs"))
-    m1 = nums_in(body, r"value\s*&\s*" + LIT, "encode_base_128 mask", 1)
-    m2 = nums_in(body, r"value\s*>>=\s*" + LIT, "encode_base_128 shift", 1)
+    m1 = nums_in(body, r"\w+\s*&\s*" + LIT, "encode_base_128 mask", 1)
+    m2 = nums_in(body, r"\w+\s*>>=\s*" + LIT, "encode_base_128 shift", 1)
     m3 = nums_in(body, r"\|=\s*" + LIT, "encode_base_128 continuation bit", 1)
     out.append("Definition b128_mask : N := %d." % m1[0])
     out.append("Definition b128_shift : N := %d." % m2[0])
@@ -380,7 +380,69 @@ def gen_header():
     return out
 
 
-SECTIONS = {"Arith": gen_arith, "Header": gen_header}
+# ---------------------------------------------------------------------------------
+# section Bound (C08): BrotliEncoderMaxCompressedSize(+Multi), MakeUncompressedStream,
+# BrotliEncodeMlen's nibble rule and the expansion guard of WriteMetaBlockInternal (encode.rs /
+# brotli_bit_stream.rs)
+# ---------------------------------------------------------------------------------
+def gen_bound():
+    out = []
+    e = src("src/enc/encode.rs")
+    b = src("src/enc/brotli_bit_stream.rs")
+    body = body_after_signature(fn_body(e, "BrotliEncoderMaxCompressedSize", "encode.rs"))
+    out.append("Definition bound_magic_size : N := %d." % nums_in(body, r"let\s+\w+\s*=\s*" + LIT + r"\s*;", "MaxCompressedSize magic_size", 1)[0])
+    out.append("Definition bound_block_shift : N := %d." % nums_in(body, r":\s*usize\s*=\s*\w+\s*>>\s*" + LIT, "MaxCompressedSize block shift", 1)[0])
+    out.append("Definition bound_tail_shift : N := %d." % nums_in(body, r"\.wrapping_sub\(\s*\w+\s*<<\s*" + LIT + r"\s*\)", "MaxCompressedSize tail shift", 1)[0])
+    m = re.search(r"if\s+\w+\s*>\s*\(\s*1i32\s*<<\s*" + LIT + r"\s*\)\s*as\s+usize\s*\{\s*" + LIT + r"\s*\}\s*else\s*\{\s*" + LIT + r"\s*\}", body)
+    if not m:
+        raise GenError("MaxCompressedSize: tail overhead `if tail > (1i32 << K) as usize { K } else { K }` not found")
+    out.append("Definition bound_tail_log : N := %d." % parse_num(m.group(1), "mcs"))
+    out.append("Definition bound_tail_overheads : list N := %s." % coq_list([parse_num(m.group(2), "mcs"), parse_num(m.group(3), "mcs")]))
+    m = re.search(r"\(\s*" + LIT + r"\s*\)\s*\.wrapping_add\(\s*\(\s*" + LIT + r"\s*\)\.wrapping_mul\(\s*\w+\s*\)\s*\)\s*\.wrapping_add\(\s*\w+\s*\)\s*\.wrapping_add\(\s*" + LIT + r"\s*\)", body)
+    if not m:
+        raise GenError("MaxCompressedSize: overhead `(K).wrapping_add((K).wrapping_mul(blocks)).wrapping_add(tail_overhead).wrapping_add(K)` not found")
+    out.append("Definition bound_overhead_consts : list N := %s." % coq_list([parse_num(m.group(i), "mcs") for i in (1, 2, 3)]))
+    m = re.search(r"if\s+\w+\s*==\s*0usize\s*\{\s*return\s+" + LIT + r"\s*\+\s*\w+\s*;", body)
+    if not m:
+        raise GenError("MaxCompressedSize: `if input_size == 0usize { return K + magic_size; }` not found")
+    out.append("Definition bound_empty_base : N := %d." % parse_num(m.group(1), "mcs"))
+    if not re.search(r"if\s+(\w+)\s*<\s*\w+\s*\{\s*0usize\s*\}\s*else\s*\{\s*\1\s*\+\s*\w+\s*\}", body):
+        raise GenError("MaxCompressedSize: `if result < input_size { 0usize } else { result + magic_size }` not found")
+    body = body_after_signature(fn_body(e, "BrotliEncoderMaxCompressedSizeMulti", "encode.rs"))
+    out.append("Definition bound_per_thread : N := %d." % nums_in(body, r"\*\s*" + LIT, "MaxCompressedSizeMulti per thread", 1)[0])
+    # --- MakeUncompressedStream
+    body = body_after_signature(fn_body(e, "MakeUncompressedStream", "encode.rs"))
+    lits = nums_in(body, r"output\[\w+\]\s*=\s*" + LIT + r"\s*;", "MakeUncompressedStream literal bytes", 4)
+    out.append("Definition mus_empty_stream : list N := %s." % coq_list(lits[0:1]))
+    out.append("Definition mus_prologue : list N := %s." % coq_list(lits[1:3]))
+    out.append("Definition mus_epilogue : list N := %s." % coq_list(lits[3:4]))
+    sh = nums_in(body, r"1u32\s*<<\s*" + LIT, "MakeUncompressedStream thresholds")
+    if sh != [24, 24, 16, 20]:
+        raise GenError("MakeUncompressedStream: thresholds 1u32 << K are %r, expected [24, 24, 16, 20]" % (sh,))
+    out.append("Definition mus_chunk_log : N := %d." % sh[0])
+    out.append("Definition mus_nibble_logs : list N := %s." % coq_list(sh[2:4]))
+    m = re.search(r"nibbles\s*<<\s*" + LIT + r"\s*\|\s*\w+\.wrapping_sub\(\s*" + LIT + r"\s*\)\s*<<\s*" + LIT + r"\s*\|\s*1u32\s*<<\s*\(\s*" + LIT + r"\s*\)\.wrapping_add\(\s*\(\s*" + LIT + r"\s*\)\.wrapping_mul\(\s*nibbles\s*\)\s*\)", body)
+    if not m:
+        raise GenError("MakeUncompressedStream: header word `nibbles << K | chunk_size.wrapping_sub(K) << K | 1u32 << (K).wrapping_add((K).wrapping_mul(nibbles))` not found")
+    out.append("Definition mus_bits_consts : list N := %s." % coq_list([parse_num(m.group(i), "mus") for i in range(1, 6)]))
+    m = re.search(r"if\s+\w+\s*>\s*1u32\s*<<\s*20\s*\{\s*" + LIT + r"\s*\}\s*else\s*\{\s*" + LIT + r"\s*\}", body)
+    if not m:
+        raise GenError("MakeUncompressedStream: nibble choice `if chunk_size > 1u32 << 20 { K } else { K }` not found")
+    out.append("Definition mus_nibble_values : list N := %s." % coq_list([parse_num(m.group(2), "mus"), parse_num(m.group(1), "mus")]))
+    # --- the expansion guard of WriteMetaBlockInternal: `bytes + K + saved_byte_location < (*storage_ix >> 3)`
+    body = body_after_signature(fn_body_any(e, "WriteMetaBlockInternal", "encode.rs"))
+    g = nums_in(body, r"if\s+bytes\s*\+\s*" + LIT + r"\s*\+\s*saved_byte_location\s*<\s*\(\s*\*storage_ix\s*>>\s*3\s*\)", "WriteMetaBlockInternal guard", 1)
+    out.append("Definition guard_slack : N := %d." % g[0])
+    # --- BrotliEncodeMlen: mnibbles = (if lg < 16 { 16 } else { lg + 3 }) / 4
+    body = body_after_signature(fn_body(b, "BrotliEncodeMlen", "brotli_bit_stream.rs"))
+    m = re.search(r"if\s+lg\s*<\s*" + LIT + r"\s*\{\s*" + LIT + r"\s*\}\s*else\s*\{\s*lg\.wrapping_add\(\s*" + LIT + r"\s*\)\s*\}\s*\)\s*\.wrapping_div\(\s*" + LIT + r"\s*\)", body)
+    if not m:
+        raise GenError("BrotliEncodeMlen: `(if lg < K { K } else { lg.wrapping_add(K) }).wrapping_div(K)` not found")
+    out.append("Definition mlen_consts : list N := %s." % coq_list([parse_num(m.group(i), "mlen") for i in range(1, 5)]))
+    return out
+
+
+SECTIONS = {"Arith": gen_arith, "Header": gen_header, "Bound": gen_bound}
 SECTIONS["Huffman"] = gen_huffman
 
 
@@ -442,6 +504,15 @@ def gen_io():
 
 
 SECTIONS["IO"] = gen_io
+
+
+def gen_alloc():
+    """C09: release sites and table sizes of the allocator protocol (tools/gen_alloc.py)."""
+    import gen_alloc as _ga
+    return _ga.generate()
+
+
+SECTIONS["Alloc"] = gen_alloc
 
 
 def render(section):
